@@ -211,6 +211,8 @@ func (sc *serverConn) processData(f *DataFrame) error {
 		st.inflow.take(int32(len(data)))
 		wrote, err := st.body.Write(data)
 		if err != nil {
+			// Return the conn-level flow control of the bytes not consumed.
+			sc.sendWindowUpdate(nil, len(data)-wrote)
 			state.SpdyErrStreamAlreadyClosed.Inc(1)
 			return StreamError{id, StreamAlreadyClosed}
 		}
